@@ -47,6 +47,9 @@ type comparator struct {
 	decl    *ast.FuncDecl
 	info    *types.Info
 	locals  map[string]string // local name -> side
+	prefix  map[string]string // local name -> key path the local stands for (bound parameters of a followed call)
+	prog    *Program
+	depth   int
 	params  [2]string
 	recv    string
 	keys    []string
@@ -75,6 +78,9 @@ func (cm *comparator) operand(e ast.Expr) (cmpOperand, bool) {
 			continue
 		case *ast.Ident:
 			if side, ok := cm.locals[x.Name]; ok {
+				if pre := cm.prefix[x.Name]; pre != "" {
+					path = append(strings.Split(pre, "."), path...)
+				}
 				return cmpOperand{side, strings.Join(path, ".")}, len(path) > 0
 			}
 			return cmpOperand{}, false
@@ -260,8 +266,109 @@ func (cm *comparator) evalCond(e ast.Expr, rel map[string]int) (bool, bool) {
 			}
 		}
 	}
+	if call, ok := e.(*ast.CallExpr); ok {
+		if v, ok := cm.evalCall(call, rel); ok {
+			return v, true
+		}
+		if cm.problem != "" {
+			return false, false
+		}
+	}
 	cm.problem = "unsupported expression " + types.ExprString(e)
 	return false, false
+}
+
+// evalCall follows a call of a module function or method whose arguments are elements (or parts of elements) of
+// the two sides: the callee's body is evaluated with its parameters bound to those operands.
+func (cm *comparator) evalCall(call *ast.CallExpr, rel map[string]int) (bool, bool) {
+	if cm.depth > 3 || cm.info == nil || cm.prog == nil {
+		return false, false
+	}
+	var fn *types.Func
+	var recvExpr ast.Expr
+	switch f := unparen(call.Fun).(type) {
+	case *ast.Ident:
+		fn, _ = cm.info.Uses[f].(*types.Func)
+	case *ast.SelectorExpr:
+		if sel, ok := cm.info.Selections[f]; ok && sel.Kind() == types.MethodVal {
+			fn, _ = sel.Obj().(*types.Func)
+			recvExpr = f.X
+		}
+	}
+	if fn == nil {
+		return false, false
+	}
+	var decl *ast.FuncDecl
+	for _, pk := range cm.prog.modulePackages() {
+		for _, file := range pk.Syntax {
+			for _, d := range file.Decls {
+				if fd, ok := d.(*ast.FuncDecl); ok && pk.TypesInfo.Defs[fd.Name] == types.Object(fn) {
+					decl = fd
+				}
+			}
+		}
+	}
+	if decl == nil || decl.Body == nil {
+		return false, false
+	}
+	sub := &comparator{fn: cm.fn, decl: decl, info: cm.info, locals: map[string]string{}, prefix: map[string]string{}, strict: cm.strict, keys: cm.keys, prog: cm.prog, depth: cm.depth + 1}
+	sub.params = [2]string{"\x00", "\x00"}
+	bind := func(name string, e ast.Expr) bool {
+		if name == "" || name == "_" {
+			return true
+		}
+		// strip & and *
+		for {
+			e = unparen(e)
+			if u, ok := e.(*ast.UnaryExpr); ok && u.Op == token.AND {
+				e = u.X
+				continue
+			}
+			if st, ok := e.(*ast.StarExpr); ok {
+				e = st.X
+				continue
+			}
+			break
+		}
+		op, _ := cm.operandAny(e)
+		if op.side == "" {
+			return false
+		}
+		sub.locals[name] = op.side
+		sub.prefix[name] = op.key
+		return true
+	}
+	if recvExpr != nil && decl.Recv != nil && len(decl.Recv.List) == 1 && len(decl.Recv.List[0].Names) == 1 {
+		if !bind(decl.Recv.List[0].Names[0].Name, recvExpr) {
+			return false, false
+		}
+	}
+	k := 0
+	for _, f := range decl.Type.Params.List {
+		for _, n := range f.Names {
+			if k >= len(call.Args) || !bind(n.Name, call.Args[k]) {
+				return false, false
+			}
+			k++
+		}
+	}
+	r, ret, ok := sub.evalBlock(decl.Body.List, rel)
+	cm.keys = sub.keys
+	if !ok {
+		cm.problem = sub.problem
+		return false, false
+	}
+	if !ret {
+		cm.problem = "followed comparator helper can fall off its end"
+		return false, false
+	}
+	return r, true
+}
+
+// operandAny is operand without the requirement that a key path follows the element.
+func (cm *comparator) operandAny(e ast.Expr) (cmpOperand, bool) {
+	op, _ := cm.operand(e)
+	return op, op.side != ""
 }
 
 func newComparator(p *Program, fn *ssa.Function) *comparator {
@@ -269,7 +376,7 @@ func newComparator(p *Program, fn *ssa.Function) *comparator {
 	if !ok || fd.Body == nil {
 		return nil
 	}
-	cm := &comparator{fn: fn, decl: fd, info: p.infoFor(fn), locals: map[string]string{}, strict: map[string]bool{}}
+	cm := &comparator{fn: fn, decl: fd, info: p.infoFor(fn), locals: map[string]string{}, prefix: map[string]string{}, strict: map[string]bool{}, prog: p}
 	var names []string
 	for _, f := range fd.Type.Params.List {
 		for _, n := range f.Names {
@@ -707,30 +814,64 @@ func ruleC03c(c *Ctx) {
 		if _, isPhi := strip(bo.X).(*ssa.Phi); !isPhi && !family[strip(bo.X)] {
 			return
 		}
-		if n, ok := constInt(bo.Y); ok {
-			incs = append(incs, inc{n, "const", i})
-			return
-		}
-		// (len(T) - idx) * m  with idx < len(T) known
-		if mul, ok := strip(bo.Y).(*ssa.BinOp); ok && mul.Op == token.MUL {
-			if m, ok := constInt(mul.Y); ok {
-				if sub, ok := strip(mul.X).(*ssa.BinOp); ok && sub.Op == token.SUB {
-					if lc, ok := strip(sub.X).(*ssa.Call); ok && isBuiltinCall(lc, "len") {
-						bounded := false
-						for f := range facts[i.Block()] {
-							if cmp, ok := f.Cond.(*ssa.BinOp); ok && cmp.Op == token.LSS && f.Pol && strip(cmp.X) == strip(sub.Y) {
-								if rc, ok := strip(cmp.Y).(*ssa.Call); ok && isBuiltinCall(rc, "len") && strip(rc.Call.Args[0]) == strip(lc.Call.Args[0]) {
-									bounded = true
+		// one increment value: a constant, or (len(T) - idx) * m  with idx < len(T) known
+		var classify func(y ssa.Value, depth int) bool
+		classify = func(y ssa.Value, depth int) bool {
+			if n, ok := constInt(y); ok {
+				incs = append(incs, inc{n, "const", i})
+				return true
+			}
+			if mul, ok := strip(y).(*ssa.BinOp); ok && mul.Op == token.MUL {
+				if m, ok := constInt(mul.Y); ok {
+					if sub, ok := strip(mul.X).(*ssa.BinOp); ok && sub.Op == token.SUB {
+						if lc, ok := strip(sub.X).(*ssa.Call); ok && isBuiltinCall(lc, "len") {
+							for f := range facts[i.Block()] {
+								if cmp, ok := f.Cond.(*ssa.BinOp); ok && cmp.Op == token.LSS && f.Pol && strip(cmp.X) == strip(sub.Y) {
+									if rc, ok := strip(cmp.Y).(*ssa.Call); ok && isBuiltinCall(rc, "len") && strip(rc.Call.Args[0]) == strip(lc.Call.Args[0]) {
+										incs = append(incs, inc{m, "weighted", i})
+										return true
+									}
 								}
 							}
-						}
-						if bounded {
-							incs = append(incs, inc{m, "weighted", i})
-							return
 						}
 					}
 				}
 			}
+			// a value chosen per path (the result of a helper, on a normal form): every edge that can have been
+			// taken, given the boolean phis of the same block whose value is known here
+			if ph, ok := strip(y).(*ssa.Phi); ok && depth < 3 {
+				feasible := make([]bool, len(ph.Edges))
+				for k := range feasible {
+					feasible[k] = true
+				}
+				for f := range facts[i.Block()] {
+					bp, ok := f.Cond.(*ssa.Phi)
+					if !ok || bp.Block() != ph.Block() || len(bp.Edges) != len(ph.Edges) {
+						continue
+					}
+					for k, e := range bp.Edges {
+						if v, isC := constBool(e); isC && v != f.Pol {
+							feasible[k] = false
+						}
+					}
+				}
+				all := true
+				n := 0
+				for k, e := range ph.Edges {
+					if !feasible[k] {
+						continue
+					}
+					n++
+					if !classify(e, depth+1) {
+						all = false
+					}
+				}
+				return all && n > 0
+			}
+			return false
+		}
+		if classify(bo.Y, 0) {
+			return
 		}
 		unknown = "increment at " + p.ipos(i) + " is not recognised"
 	})
@@ -886,7 +1027,7 @@ func ruleC03c(c *Ctx) {
 	if header != nil {
 		var body []*ssa.BasicBlock
 		for _, b := range scan.Blocks {
-			if b != header && cyc[b] && reachableBlocks(b.Succs, nil)[header] {
+			if b != header && cyc[b] && reachableAfter(b, nil)[header] {
 				body = append(body, b)
 			}
 		}
